@@ -158,3 +158,169 @@ def names_loaded(e, exclude_comprehension_locals=True) -> Set[str]:
             elif isinstance(n, ast.Lambda):
                 bound.update(a.arg for a in n.args.args)
     return {n.id for n in ast.walk(e) if isinstance(n, ast.Name) and isinstance(n.ctx, ast.Load)} - bound
+
+
+# ------------------------------------------------------------------ local aliases (reaching definitions)
+# `history = context.history; last = history[-1]; scope = context.scope`: a local that is bound, by the single definition
+# reaching a use, to a side-effect-free path expression denotes that expression at the use -- provided nothing the
+# expression is built from was rebound / stored / mutated in between.  Rules that recognise an expression by its
+# spelling call expand_aliases() first, so that introducing (or removing) such locals does not change what they see.
+_RD_CACHE: Dict[int, tuple] = {}
+_LIST_MUTATORS = {"append", "extend", "insert", "pop", "remove", "clear", "sort", "reverse", "update", "add", "discard",
+                  "setdefault", "popitem"}
+
+
+def _rd_of(fn):
+    from .cfg import cfg_of
+    k = id(fn.node)
+    if k not in _RD_CACHE:
+        g = cfg_of(fn)
+        _RD_CACHE[k] = (g, reaching_definitions(g, fn.params))
+    return _RD_CACHE[k]
+
+
+def cfg_node_of(g: CFG, e) -> Optional[int]:
+    """The CFG node in which expression / statement *e* is evaluated."""
+    n = e
+    while n is not None:
+        nid = g.nid(n)
+        if nid is not None:
+            return nid
+        if isinstance(n, (ast.FunctionDef, ast.AsyncFunctionDef, ast.Lambda)):
+            return None
+        n = getattr(n, "_sa_parent", None)
+    return None
+
+
+def is_path(e) -> bool:
+    """Name, attribute chain, or element with a constant index of one: re-evaluating it is free of side effects."""
+    if isinstance(e, ast.Name):
+        return True
+    if isinstance(e, ast.Attribute):
+        return is_path(e.value)
+    if isinstance(e, ast.Subscript):
+        s = e.slice
+        const = isinstance(s, ast.Constant) or (isinstance(s, ast.UnaryOp) and isinstance(s.op, ast.USub)
+                                                and isinstance(s.operand, ast.Constant))
+        return const and is_path(e.value)
+    return False
+
+
+def _bound_by_expression(name_node) -> bool:
+    """Is the name a comprehension variable / lambda parameter at this occurrence?"""
+    n = getattr(name_node, "_sa_parent", None)
+    while n is not None and not isinstance(n, ast.stmt):
+        if isinstance(n, (ast.ListComp, ast.SetComp, ast.GeneratorExp, ast.DictComp)):
+            for gen in n.generators:
+                if name_node.id in target_names(gen.target):
+                    return True
+        if isinstance(n, ast.Lambda):
+            a = n.args
+            if name_node.id in [x.arg for x in a.posonlyargs + a.args + a.kwonlyargs]:
+                return True
+        n = getattr(n, "_sa_parent", None)
+    return False
+
+
+def _subpaths(e) -> Set[str]:
+    out = set()
+    x = e
+    while isinstance(x, (ast.Attribute, ast.Subscript)):
+        out.add(ast.unparse(x))
+        x = x.value
+    return out
+
+
+def resolve_local(fn, name_node, accept=is_path):
+    """The expression the local variable read at *name_node* (an ast.Name, Load) stands for, or None.
+
+    Exactly one definition reaches the use, it is a plain ``name = <expr>`` with *accept*(<expr>) true, every name of
+    <expr> has the same reaching definitions at the definition and at the use, and no statement on a path between the two
+    stores into / deletes / calls a mutating method on a (sub-)path of <expr>."""
+    if not isinstance(name_node, ast.Name) or not isinstance(name_node.ctx, ast.Load) or _bound_by_expression(name_node):
+        return None
+    g, RD = _rd_of(fn)
+    use = cfg_node_of(g, name_node)
+    if use is None:
+        return None
+    defs = RD.get(use, {}).get(name_node.id)
+    if not defs or len(defs) != 1:
+        return None
+    d = next(iter(defs))
+    if d < 0 or d == use:
+        return None
+    dn = g.nodes[d]
+    a = dn.ast
+    value = None
+    if dn.kind == "stmt" and isinstance(a, ast.Assign) and len(a.targets) == 1 and isinstance(a.targets[0], ast.Name) \
+            and a.targets[0].id == name_node.id:
+        value = a.value
+    elif dn.kind == "stmt" and isinstance(a, ast.AnnAssign) and isinstance(a.target, ast.Name) and a.target.id == name_node.id:
+        value = a.value
+    if value is None or not accept(value):
+        return None
+    for nm in ast.walk(value):
+        if isinstance(nm, ast.Name) and RD.get(d, {}).get(nm.id, set()) != RD.get(use, {}).get(nm.id, set()):
+            return None
+    paths = _subpaths(value)
+    # containers of which the value reads an element: storing into / mutating them changes what the value denotes
+    roots = {ast.unparse(s_.value) for s_ in ast.walk(value) if isinstance(s_, ast.Subscript)}
+    if paths:
+        between = None
+        for n in g.nodes:
+            s = n.ast
+            if n.kind != "stmt" or s is None or n.id == d:
+                continue
+            hit = False
+            if isinstance(s, (ast.Assign, ast.AugAssign, ast.AnnAssign, ast.Delete)):
+                tg = s.targets if isinstance(s, (ast.Assign, ast.Delete)) else [s.target]
+                for t in tg:
+                    for sub in ast.walk(t):
+                        if isinstance(sub, (ast.Attribute, ast.Subscript)) and isinstance(sub.ctx, (ast.Store, ast.Del)):
+                            # a store to  P  or to an element / slice of  P  where P is a (sub-)path of the value
+                            if ast.unparse(sub) in paths or (isinstance(sub, ast.Subscript) and ast.unparse(sub.value) in roots):
+                                hit = True
+            if not hit:
+                for c in ast.walk(s):
+                    if isinstance(c, ast.Call) and isinstance(c.func, ast.Attribute) and c.func.attr in _LIST_MUTATORS \
+                            and ast.unparse(c.func.value) in roots:
+                        hit = True
+            if hit:
+                if between is None:
+                    between = g.reachable(d, follow_exc=False)
+                if n.id in between and (n.id == use or g.can_reach(n.id, use, follow_exc=False)):
+                    return None
+    return value
+
+
+def _clone(n, mapping):
+    if id(n) in mapping:
+        return mapping[id(n)]
+    new = n.__class__()
+    for f, v in ast.iter_fields(n):
+        if isinstance(v, list):
+            setattr(new, f, [_clone(x, mapping) if isinstance(x, ast.AST) else x for x in v])
+        elif isinstance(v, ast.AST):
+            setattr(new, f, _clone(v, mapping))
+        else:
+            setattr(new, f, v)
+    for a in ("lineno", "col_offset", "end_lineno", "end_col_offset"):
+        if hasattr(n, a):
+            setattr(new, a, getattr(n, a))
+    return new
+
+
+def expand_aliases(fn, e, accept=is_path, _depth=0):
+    """*e* with every local alias (see resolve_local) replaced by the expression it stands for, transitively.  Returns
+    *e* itself when there is nothing to replace (parent pointers stay usable); otherwise a detached copy."""
+    if e is None or _depth > 6:
+        return e
+    mapping = {}
+    for n in ast.walk(e):
+        if isinstance(n, ast.Name) and isinstance(n.ctx, ast.Load):
+            v = resolve_local(fn, n, accept)
+            if v is not None:
+                mapping[id(n)] = expand_aliases(fn, v, accept, _depth + 1)
+    if not mapping:
+        return e
+    return _clone(e, mapping)
